@@ -65,7 +65,7 @@ fn content(c: &Case) -> Vec<u8> {
         }
         _ => {
             match other {
-                1 => put(&mut v, 0, 0),
+                1 => put(&mut v, 0, if c.key & 0x1000 == 0 { 0 } else { 0xD650_52E8 }),
                 2 | 3 => put(&mut v, 0, 0xE852_50D6),
                 _ => {}
             }
@@ -114,10 +114,27 @@ fn bytes_ref<H: Header>(slice: &[u8]) -> Result<usize, MemoryError> {
     BytesRef::<H>::try_from(slice).map(|b| b.len())
 }
 
+/// The case's header kind first, then the other four kinds on the *same
+/// memory* (same address, same length, content rewritten for the kind): what
+/// was decided for one header kind must not carry over to another.
 pub fn eval(c: &Case, obs: &mut Obs) -> Result<(), String> {
-    let hsz = hdr_size(c.hdr);
     let data = content(c);
-    let (a, mis) = Aligned::with_offset(&data, c.mis);
+    let (mut a, mis) = Aligned::with_offset(&data, c.mis);
+    eval_kind(c, &a, mis, obs)?;
+    for d in 1..5u8 {
+        let mut c2 = c.clone();
+        c2.hdr = (c.hdr + d) % 5;
+        let mut data = vec![0u8; mis];
+        data.extend(content(&c2));
+        a.overwrite(&data);
+        let mut scratch = Obs::new();
+        eval_kind(&c2, &a, mis, &mut scratch).map_err(|m| format!("{m} [on the memory that held a {} before]", hdr_name(c.hdr)))?;
+    }
+    Ok(())
+}
+
+fn eval_kind(c: &Case, a: &Aligned, mis: usize, obs: &mut Obs) -> Result<(), String> {
+    let hsz = hdr_size(c.hdr);
     let slice = &a.as_slice()[mis..];
     let (out, br) = match c.hdr {
         0 => (run_real::<multiboot2_common::test_utils::DummyTestHeader>(slice, hsz), bytes_ref::<multiboot2_common::test_utils::DummyTestHeader>(slice)),
@@ -302,7 +319,7 @@ pub fn subs() -> Vec<Box<dyn Sub>> {
     vec![
         Box::new(PropSub::<Case> {
             name: "ref_from_slice",
-            rule: "DynSizedStructure::<H>::ref_from_slice and BytesRef::<H>::try_from for H in {DummyTestHeader, TagHeader, BootInformationHeader, HeaderTagHeader, Multiboot2BasicHeader}. Enumerated completely: slice length 0..=56 (thorough 88) x start misalignment 0..=7 x declared size 0..=len+16. The header's other words (type, reserved, magic) are markers, zero, a small defined id or the right value: success and size must not depend on them. Generated: lengths to 70000 incl. 8-aligned lengths around 4096/8192/16384/32768/65536, declared sizes around the length / around those bounds / tiny / uniform below the length / random. Oracle: error precedence of the statement, then address/header/payload/size_of_val equalities. Non-trivial = every case except (valid, declared == len); distinct by (header, len, misalignment, declared)",
+            rule: "DynSizedStructure::<H>::ref_from_slice and BytesRef::<H>::try_from for H in {DummyTestHeader, TagHeader, BootInformationHeader, HeaderTagHeader, Multiboot2BasicHeader}. Enumerated completely: slice length 0..=56 (thorough 88) x start misalignment 0..=7 x declared size 0..=len+16. The header's other words (type, reserved, magic) are markers, zero, the byte-swapped magic, a small defined id or the right value: success and size must not depend on them. Every case is evaluated for its header kind and then, on the same memory (same address and length), for the other four kinds. Generated: lengths to 70000 incl. 8-aligned lengths around 4096/8192/16384/32768/65536, declared sizes around the length / around those bounds / tiny / uniform below the length / random. Oracle: error precedence of the statement, then address/header/payload/size_of_val equalities. Non-trivial = every case except (valid, declared == len); distinct by (header, len, misalignment, declared)",
             profiles: Profiles::Both,
             quick: 40000,
             thorough: 3000000,
